@@ -40,6 +40,7 @@
 	extern __typeof__(random_lib_lp_init) p##random_lib_lp_init;                                                   \
 	extern __typeof__(msg_queue_global_init) p##msg_queue_global_init;                                             \
 	extern __typeof__(msg_queue_init) p##msg_queue_init;                                                           \
+	extern __typeof__(msg_queue_fini) p##msg_queue_fini;                                                           \
 	extern __typeof__(msg_queue_insert) p##msg_queue_insert;                                                       \
 	extern __typeof__(msg_queue_extract) p##msg_queue_extract;                                                     \
 	extern __typeof__(msg_queue_time_peek) p##msg_queue_time_peek;                                                 \
@@ -92,7 +93,7 @@
 		    F(p, Poisson), F(p, Normal), F(p, RandomRange), F(p, RandomRangeNonUniform), F(p, Gamma),          \
 		    F(p, Zipf), F(p, CountRegions), F(p, CountDirections), F(p, GetReceiver), F(p, ReleaseTopology),   \
 		    F(p, AddTopologyLink), F(p, IsNeighbor), F(p, vInitializeTopology), F(p, random_lib_lp_init),      \
-		    F(p, msg_queue_global_init), F(p, msg_queue_init), F(p, msg_queue_insert), F(p, msg_queue_extract), \
+		    F(p, msg_queue_global_init), F(p, msg_queue_init), F(p, msg_queue_fini), F(p, msg_queue_insert), F(p, msg_queue_extract), \
 		    F(p, msg_queue_time_peek), F(p, msg_allocator_init), F(p, msg_allocator_alloc),                    \
 		    F(p, msg_allocator_free), F(p, msg_allocator_free_at_gvt), F(p, msg_allocator_on_gvt),             \
 		    F(p, fossil_lp_collect), F(p, fossil_on_gvt), F(p, termination_on_gvt),                            \
